@@ -1,6 +1,6 @@
 (* C07: the executable oracle accepts what the model produces (cases without concurrent writers). *)
 From KB Require Import Base.Cases Model.Coder Model.CompactSys Model.C07Cases
-  Proofs.Coder Proofs.CompactSafe Proofs.CompactReads Proofs.CompactWf Proofs.CompactPass Proofs.CompactRanges Proofs.CompactBorders.
+  Proofs.Coder Proofs.CompactSafe Proofs.CompactReads Proofs.CompactWf Proofs.CompactPass Proofs.CompactRanges Proofs.CompactBorders Proofs.CompactRetry.
 From Coq Require Import Sorted.
 Local Open Scope N_scope.
 
@@ -500,8 +500,7 @@ Record variant_valid (p : bytes) (sk : list bytes) (V : store) (reads : list c07
   vv_reads : Forall (rd_ok (clamp (v7_cur v) 0 (v7_req v)) (v7_cur2 v)) reads;   (* reads at revisions >= R (0 = latest) *)
   vv_fresh : fresh V (v7_cur2 v + 1);                                  (* the round's revisions are above everything stored *)
   vv_bound : v7_cur2 v + 1 + N.of_nat (length (v7_round v)) <= max_rev;
-  vv_ops : Forall (fun q => op_ok (v7_cur2 v + 1) (fst q)) (v7_round v);
-  vv_noiter : v7_iterfail v = 0                                        (* no failed iterator step *)
+  vv_ops : Forall (fun q => op_ok (v7_cur2 v + 1) (fst q)) (v7_round v)
 }.
 
 Lemma compact_all_filter R V ranges (os : list outcome) :
@@ -570,11 +569,18 @@ Theorem variant_sound p sk V reads cb v :
   variant_check p sk V reads cb v = true ->
   variant_oracle p sk V reads cb v = None.
 Proof.
-  intros Hs Hok Hu Hw Ap Ask Akeys [(os & Eoc) HR Hreads Hfresh Hbound Hops Hni] Hc.
-  unfold variant_check, variant_pass in Hc. rewrite Hni in Hc. change (0 =? 0) with true in Hc. cbv iota in Hc. rewrite Eoc in Hc.
+  intros Hs Hok Hu Hw Ap Ask Akeys [(os & Eoc) HR Hreads Hfresh Hbound Hops] Hc.
+  unfold variant_check in Hc.
   set (R := clamp (v7_cur v) 0 (v7_req v)) in *.
-  destruct (compact_all_filter R V (ranges_of p sk) os Hok Hu) as (Hg & Hveq & Hwf & f & Ef & Hf).
-  set (d := compact_all R 0 (ranges_of p sk) (init_d V (map (fun o => ([], o)) os))) in *.
+  (* one pass, or - an iterator step having failed - a head of a range and the worker's second run *)
+  assert (Hd : d_ghost (variant_pass p sk V v) = V /\ veq R (d_store (variant_pass p sk V v)) V /\
+               (wfd V -> wfd (d_store (variant_pass p sk V v))) /\
+               exists f, d_store (variant_pass p sk V v) = filter f V /\
+                         forall y, In y V -> f y = false -> touched (ranges_of p sk) (rkey y)).
+  { unfold variant_pass. fold R. rewrite Eoc. destruct (v7_iterfail v =? 0);
+      [apply compact_all_filter|apply compact_all_f_filter]; assumption. }
+  destruct Hd as (Hg & Hveq & Hwf & f & Ef & Hf).
+  set (d := variant_pass p sk V v) in *.
   repeat (apply andb_true_iff in Hc as [Hc ?]).
   (* the dumps *)
   assert (Epost : apply_diff V (v7_post v) = filter f V).
